@@ -510,3 +510,70 @@ func H_C01_struct_tag_after_override() {
 	}
 	vReach("end")
 }
+
+// ---- slices of other element types: the measure is the number of elements whatever they hold ----
+type vNamedBytes []byte
+
+func H_C01_slice_elems() {
+	rule := vndChoice("rule", 8)
+	n := vndLen("n", 3) + 1
+	var x interface{}
+	viaVar := true
+	switch vndChoice("elem", 10) {
+	case 0: // bytes that may form multi-byte characters (or malformed ones): still n elements
+		b := make([]byte, n)
+		for i := range b {
+			b[i] = vndUint8("b" + vNum(i))
+		}
+		x = b
+	case 1:
+		b := make(vNamedBytes, n)
+		for i := range b {
+			b[i] = vndUint8("b" + vNum(i))
+		}
+		x = b
+	case 2: // strings of several characters each
+		s := make([]string, n)
+		for i := range s {
+			s[i] = "中文"
+		}
+		s[0] = vndString("s0", 3)
+		x = s
+	case 3:
+		r := make([]rune, n)
+		for i := range r {
+			r[i] = vndInt32("r" + vNum(i))
+		}
+		x = r
+	case 4:
+		f := make([]float64, n)
+		f[0] = 2.5 // a value whose text is longer than the slice
+		x = f
+	case 5:
+		b := make([]bool, n)
+		b[0] = vndBool("b0")
+		x = b
+	case 6:
+		s := make([][]int, n)
+		s[0] = []int{1, 2, 3, 4, 5}
+		x, viaVar = s, false
+	case 7:
+		s := make([]interface{}, n)
+		s[n-1] = "abc"
+		x, viaVar = s, false
+	case 8:
+		s := make([]*int, n)
+		x, viaVar = s, false
+	default:
+		u := make([]uint16, n)
+		u[0] = vndUint16("u0")
+		x = u
+	}
+	text, want := vC01Rule(rule, vSignedMeas(int64(n)), false)
+	got := vViolated(func(b *strings.Builder) { vSizeFns[rule](b, text, "O", "F", reflect.ValueOf(x)) })
+	vAssert(got == want, "C01 "+vSizeRules[rule]+"/slice: the measure of a slice is its length, whatever the element type")
+	if viaVar {
+		vAssert((Var(x, text) != nil) == want, "C01 "+vSizeRules[rule]+"/slice: Var verdict for a slice of another element type")
+	}
+	vReach("end")
+}
